@@ -5,6 +5,7 @@ package sim
 // same reference model; the tape is not consulted. Used by known/*.json replays.
 
 import (
+	"fmt"
 	"testing"
 	"time"
 
@@ -34,6 +35,8 @@ func runCanned(t *testing.T, tape *Tape, w *World, variant string, steps int, ou
 		out.v = r.cannedPruneDL()
 	case "snap_long":
 		out.v = r.cannedSnapLong()
+	case "ack_many":
+		out.v = r.cannedAckMany()
 	default:
 		panic("HARNESS: unknown canned scenario " + variant)
 	}
@@ -298,6 +301,45 @@ func (r *Run) cannedSnapLong() *Violation {
 		func() *Violation { return r.pullSub(r.sub(0), true) },
 		func() *Violation { r.sleep(5 * time.Second); return nil },
 		func() *Violation { return r.pullSub(r.sub(0), true) },
+	)
+	return r.runSteps(steps)
+}
+
+// ack_many (must hold on the unchanged tree): one Acknowledge request that carries between
+// one and a few thousand ack ids (client libraries batch up to 2500) settles every one of
+// them: after the leases have run out nothing is delivered again. The count comes from the
+// tape, so that whatever batching the implementation applies meets uneven remainders.
+func (r *Run) cannedAckMany() *Violation {
+	r.T.Frame()
+	n := 1000 + r.T.Intn(1700)
+	r.stat("ack_many_ids_" + fmt.Sprint(n/500*500) + "+")
+	steps := []func() *Violation{
+		func() *Violation { return r.xTopic(0) },
+		func() *Violation { return r.xSub(0, 0, shortRetry) },
+	}
+	for i := 0; i < n; i++ {
+		steps = append(steps, func() *Violation { return r.xPublish(0, nil, "") })
+	}
+	for i := 0; i*1000 < n; i++ { // (a pull hands out at most 1000)
+		steps = append(steps, func() *Violation { return r.pullSub(r.sub(0), false) })
+	}
+	steps = append(steps,
+		func() *Violation {
+			k := 0
+			for _, e := range r.sub(0).EDs {
+				if e.AckID != "" && e.State == stOut {
+					k++
+				}
+			}
+			if k != n {
+				panic(fmt.Sprintf("HARNESS: canned ack_many: %d of %d messages handed out", k, n))
+			}
+			return r.ackWhere(0, func(int) bool { return true })
+		},
+		func() *Violation { r.sleep(5 * time.Second); return nil },
+		func() *Violation { return r.pullSub(r.sub(0), false) },
+		func() *Violation { r.sleep(5 * time.Second); return nil },
+		func() *Violation { return r.pullSub(r.sub(0), false) },
 	)
 	return r.runSteps(steps)
 }
